@@ -156,7 +156,7 @@ impl Prop for C05 {
         ];
         let s = (gen::wconf_light(), src, vec(prefix_strategy(), k))
             .prop_map(|(conf, src, prefixes)| Case { spec: FileSpec { conf, src }, prefixes });
-        vec![stage("files", s, tier.pick(1500, 30_000)).shrink(800)]
+        vec![stage("files", s, tier.pick(6000, 60_000)).shrink(800)]
     }
 
     fn rule(&self) -> String {
